@@ -1,6 +1,7 @@
 (* C02 driver.
    scenario:  ri rev shuffle seed repeat route real  nT (group name ignored)*nT  nG (pat strict invert)*nG  nN (pat strict invert)*nN  nR rand*nR
-   observation: (:rep nOrd id* nS seed* nR rand* nW event* tests run ignored filtered)*  :tot nT count*
+              { :r ri rev shuffle seed repeat route real list  nG (pat strict invert)*nG  nN (pat strict invert)*nN  nR rand*nR }      further runs on the same registry
+   observation: { :run { :rep nOrd id* nS seed* nR rand* nW event* tests run ignored filtered } } :tot nT count*     ({ } = any number of)
    event: :S | :G id | :s id | :b id | :e | :g | :E        (tests started, group started, test started, body, test ended, group ended, tests ended) *)
 let hexi i = Printf.sprintf "%x" i
 let tfilter c = let p = bytes_tok (next c) in let st = bool_tok (next c) in let iv = bool_tok (next c) in
@@ -15,9 +16,22 @@ let scenario ts =
   let gf = counted c tfilter in
   let nf = counted c tfilter in
   let rands = counted c (fun c -> n_tok (next c)) in
-  if not (at_end c) then raise (Bad "trailing tokens");
+  let rec more acc =
+    if at_end c then List.rev acc
+    else match next c with
+      | ":r" ->
+        let ri = bool_tok (next c) in let rv = bool_tok (next c) in let sh = bool_tok (next c) in
+        let seed = n_tok (next c) in let rep = nat_tok (next c) in let route = n_tok (next c) in let real = bool_tok (next c) in
+        let lst = n_tok (next c) in
+        let gf = counted c tfilter in
+        let nf = counted c tfilter in
+        let rands = counted c (fun c -> n_tok (next c)) in
+        more ({ u_gf = gf; u_nf = nf; u_ri = ri; u_rev = rv; u_shuffle = sh; u_seed = seed; u_rands = rands; u_repeat = rep;
+                u_route = route; u_real = real; u_list = lst } :: acc)
+      | _ -> raise (Bad "trailing tokens") in
+  let extra = more [] in
   { s_tests = tests; s_gf = gf; s_nf = nf; s_ri = ri; s_rev = rv; s_shuffle = sh; s_seed = seed; s_rands = rands;
-    s_repeat = rep; s_route = route; s_real = real }
+    s_repeat = rep; s_route = route; s_real = real; s_more = extra }
 let pevent = function
   | ETestsStarted -> ":S" | EGroupStarted i -> ":G " ^ pnat i | ETestStarted i -> ":s " ^ pnat i | EBody i -> ":b " ^ pnat i
   | ETestEnded -> ":e" | EGroupEnded -> ":g" | ETestsEnded -> ":E"
@@ -25,10 +39,11 @@ let plist f l = String.concat " " (hexi (List.length l) :: List.map f l)
 let prep r =
   String.concat " " [":rep"; plist pnat r.r_order; plist pn r.r_srand; plist pn r.r_rands; plist pevent r.r_word;
                      pn r.r_cnt.c_tests; pn r.r_cnt.c_run; pn r.r_cnt.c_ign; pn r.r_cnt.c_filt]
-let pobs o = String.concat " " (List.map prep o.o_reps @ [":tot"; plist pn o.o_totals])
+let prun reps = String.concat " " (":run" :: List.map prep reps)
+let pobs o = String.concat " " (List.map prun o.o_runs @ [":tot"; plist pn o.o_totals])
 let run_line ts =
   let s = scenario ts in
-  if not (valid s) then raise (Bad "scenario is not valid (NUL byte in a string, rand value above RAND_MAX, or repeat/seed the command line cannot express)")
+  if not (valid s) then raise (Bad "scenario is not valid (NUL byte in a string, rand value above RAND_MAX, repeat/seed the command line cannot express, or listing kind above 3)")
   else pobs (run s)
 let event c =
   match next c with
@@ -44,12 +59,15 @@ let rep c =
   { r_order = ord; r_srand = sr; r_rands = rs; r_word = w; r_cnt = { c_tests = a; c_run = b; c_ign = d; c_filt = e } }
 let obs os =
   let c = { rest = os } in
-  let rec go acc = match next c with
-    | ":rep" -> go (rep c :: acc)
+  (* runs: finished runs (reversed); cur: repetitions of the run being read (reversed), None before the first :run *)
+  let close runs cur = match cur with None -> runs | Some reps -> List.rev reps :: runs in
+  let rec go runs cur = match next c with
+    | ":run" -> go (close runs cur) (Some [])
+    | ":rep" -> (match cur with Some reps -> go runs (Some (rep c :: reps)) | None -> raise (Bad ":rep before :run"))
     | ":tot" -> let t = counted c (fun c -> n_tok (next c)) in
-                if not (at_end c) then raise (Bad "trailing tokens"); { o_reps = List.rev acc; o_totals = t }
+                if not (at_end c) then raise (Bad "trailing tokens"); { o_runs = List.rev (close runs cur); o_totals = t }
     | t -> raise (Bad ("item " ^ t)) in
-  go []
+  go [] None
 let spec_line ts os =
   let s = scenario ts in
   if not (valid s) then true (* not a scenario the property speaks about: not judged *)
